@@ -76,9 +76,13 @@ def main(argv):
                         sig = ln.strip()
                         break
                 caught = rc == 1 and 'VIOLATION property=' + p in out
-                print('%-28s %-4s %s exit=%d %.0fs %s' % (
-                    sid, p, 'CAUGHT' if caught else 'missed', rc, dt, sig),
-                    flush=True)
+                import re
+                m = re.search(r'(\d+) runs .*?(\d+) violating runs', out)
+                frac = '%s/%s runs violate' % (m.group(2), m.group(1)) \
+                    if m else ''
+                print('%-28s %-4s %s exit=%d %.0fs %s %s' % (
+                    sid, p, 'CAUGHT' if caught else 'missed', rc, dt, frac,
+                    sig), flush=True)
                 if rc == 2:
                     print(out[-1500:])
                 if p in meta.get('checks_expected', [meta['property']]) \
